@@ -11,6 +11,7 @@
 //!  (a) every instruction block (one per instruction variant / alias form / address form; a block creates what it
 //!      consumes and disposes of what it creates) singly and every ordered pair of blocks, under object-name modes
 //!      {unknown, all named, partially named}; SystemV1 additionally under 3 preallocated-address headers;
+//!      thorough: also every ordered triple of blocks (all objects named);
 //!  (b) every value tree of the stratified space D1 ∪ D2 ∪ D3 as the argument of the generic-argument
 //!      instructions. D1 = every leaf of the manifest leaf alphabet (all ints at min/-1/0/1/max, 26 strings incl.
 //!      quotes, backslash, CR, LF, TAB, NUL, DEL, non-ASCII, U+2028, BOM, `${x}`, combining and bidi characters,
@@ -18,7 +19,8 @@
 //!      provided blobs, decimals / precise decimals at extremes, every local-id type at min/max length);
 //!      D2 = every container form over D1 with width <= 2 (tuples, enums with discriminators 0/1/255, arrays of
 //!      every element kind incl. empty ones, maps of every (key kind, value kind) incl. empty ones, duplicate keys;
-//!      pairs are taken over one representative per kind (quick) / two per kind (thorough));
+//!      pairs are taken over one representative per kind (quick) / over *all* leaves (thorough: every ordered pair of
+//!      leaves as tuple, enum-1 fields and map entry));
 //!      D3 = every container form over 15 representative depth-2 values with width <= 2 (+ depth-4 spot checks in
 //!      the thorough tier). Instruction forms: CALL_METHOD on all of it; CALL_FUNCTION, the four module calls,
 //!      CALL_DIRECT_VAULT_METHOD, YIELD_TO_PARENT, YIELD_TO_CHILD and three alias forms on all of it (thorough) or
@@ -453,6 +455,29 @@ pub fn run(ctx: Ctx) -> ! {
             }
         }
     });
+    let mut n_triples = 0u64;
+    if thorough {
+        // every ordered triple of blocks (all objects named), V2 kinds and V1
+        n_triples = nblocks * nblocks * nblocks;
+        par_range(&ctx, n_triples, 256, |i, l| {
+            let (x, y, z) = ((i / (nblocks * nblocks)) as usize, ((i / nblocks) % nblocks) as usize, (i % nblocks) as usize);
+            for kind in KINDS {
+                let mut b = B::new(kind);
+                (blocks[x].apply)(&mut b);
+                (blocks[y].apply)(&mut b);
+                (blocks[z].apply)(&mut b);
+                let parts = b.finish();
+                if i % 50_021 == 7 {
+                    let label = format!("a3:{} ; {} ; {}|names#1", blocks[x].name, blocks[y].name, blocks[z].name);
+                    check_parts(parts, 1, &label, "", l, &seen, &net);
+                } else {
+                    check_parts(parts, 1, "a3:(block triple; see manifest_hex)", "", l, &seen, &net);
+                }
+            }
+        });
+        eprintln!("[C30] (a3) done at {:.1}s", ctx.elapsed_s());
+    }
+    cov.insert("a3_block_triples".into(), json!({"ordered_triples": n_triples, "name_mode": "all named"}));
     cov.insert("a_blocks".into(), json!({"blocks": nblocks, "singles_plus_ordered_pairs": n_a, "kinds": 4, "name_modes": name_modes.len(), "system_preallocation_headers": prealloc.len()}));
     eprintln!("[C30] (a) done at {:.1}s", ctx.elapsed_s());
 
